@@ -559,20 +559,22 @@ def to_polar_geometry(acc, gi):
                     acc.violation('to_polar-raises', form, dict(vcase, x=i, y=j), repr(e), None)
                     continue
                 acc.outcome(round(a, 6))
+                site = ('array' if form == 'array' else 'scalar') + (':pa<0' if pa < 0 else ':pa>=0')
                 # (1) the property: scalar and array forms agree.  Both twins do the same arithmetic in
                 # the same order (math.* vs numpy.*), 1e-12 is ~1000 ulp of 2 pi.
                 if abs(r - ra[j, i]) > 1e-12 or not same_angle(a, float(aa[j, i]), 1e-12):
-                    acc.violation('to_polar-scalar-vs-array', f'{form}:{"centre" if centre else quadrant(i - x0, j - y0)}',
-                                  dict(vcase, x=i, y=j, form=form), (r, a), (float(ra[j, i]), float(aa[j, i])),
-                                  'observed = this call form, expected = vectorised call on the float 9x9 grid')
+                    acc.violation('to_polar-scalar-vs-array', site, dict(vcase, x=i, y=j, form=form), (r, a),
+                                  (float(ra[j, i]), float(aa[j, i])),
+                                  f'observed = call form {form}, expected = vectorised call on the float 9x9 grid; point is '
+                                  + ('the centre' if centre else 'in quadrant ' + quadrant(i - x0, j - y0)))
                 # (2) documented meaning (radius, polar angle from the major axis in [0, 2 pi)); asin(|dy|/r)
                 # loses at most ~1e-8 only when |dx| << |dy|, which integer points with these centres exclude
                 # (dx is 0 or >= 0.3): 1e-9, measured worst on the pinned tree 1.8e-15.
                 worst = max(worst, circ(a, ar))
                 if abs(r - rr) > 1e-9 or circ(a, ar) > 1e-9 or not (-1e-12 <= a < 2 * math.pi + 1e-12):
-                    acc.violation('to_polar-reference', f'{form}:{"centre" if centre else quadrant(i - x0, j - y0)}',
-                                  dict(vcase, x=i, y=j, form=form), (r, a), (rr, ar),
-                                  'expected = hypot / atan2 reference, angle in [0, 2 pi)')
+                    acc.violation('to_polar-reference', site, dict(vcase, x=i, y=j, form=form), (r, a), (rr, ar),
+                                  f'call form {form}; expected = hypot / atan2 reference, angle in [0, 2 pi); point is '
+                                  + ('the centre' if centre else 'in quadrant ' + quadrant(i - x0, j - y0)))
     acc.counters['to_polar_worst_ref_dev_e18'] = max(acc.counters['to_polar_worst_ref_dev_e18'], int(worst * 1e18))
 
 
